@@ -44,8 +44,10 @@ type Modules struct {
 	// the name of the including (sub)module and the included submodule.
 	mergedSubmodule map[string]bool
 	// usesInProgress is the stack of groupings being converted, to detect a
-	// grouping that uses itself.
+	// grouping that uses itself.  usesCycle maps every grouping found to be
+	// part of such a cycle to the cycle.
 	usesInProgress []*Grouping
+	usesCycle      map[*Grouping][]*Grouping
 	// ParseOptions sets the options for the current YANG module parsing. It can be
 	// directly set by the caller to influence how goyang will behave in the presence
 	// of certain exceptional cases.
@@ -337,6 +339,7 @@ func (ms *Modules) Process() []error {
 	// Reset globals that may remain stale if multiple Process() calls are
 	// made by the same caller.
 	ms.mergedSubmodule = map[string]bool{}
+	ms.usesCycle = map[*Grouping][]*Grouping{}
 	ms.includes = map[*Module]bool{}
 	ms.ClearEntryCache()
 	ms.nsMu.Lock()
